@@ -102,7 +102,9 @@ def opLower (j : Json) : Json :=
         -- `bnd`: the names the output binds (C09.no_foreign_binders speaks about this list)
         ("bnd", .arr ((bnd e).eraseDups.map Json.str).toArray),
         -- `simple`: the hypothesis of C01.module_straightline_semantics (M-EVAL), evaluated on this program
-        ("simple", .bool (Sem.simpleModuleB body))])
+        ("simple", .bool (Sem.simpleModuleB body)),
+        -- `simple_w`: the hypothesis of C01.module_with_while_semantics
+        ("simple_w", .bool (Sem.simpleModuleWB body))])
     | .error err => pure (Json.mkObj [("err", .str err.cls), ("bad", .bool (badModule body))])
   match r with
   | .ok j => j
